@@ -313,7 +313,10 @@ VP_HARNESS(h_build)
             if (i < SL[k])
                 vp_assert(raw[pos + 2 + i] == static_cast<uint8_t>(g_str[k][i]), "C13: string bytes stored in order");
         for (unsigned i = SL[k]; i < fl; ++i)
+        {
             vp_assert(raw[pos + 2 + i] == 0, "C13: strings are NUL-terminated and zero-padded to even length");
+            vp_assert(raw[pos + 2 + i] == 0, "C12: the reserved terminator / alignment bytes behind a string are zero whatever the object held before");
+        }
         pos += 2 + fl;
     }
     vp_assert(vp_be16(raw + pos) == V, "C13: vendor data length field");
@@ -353,7 +356,10 @@ VP_HARNESS(h_build)
     const unsigned padded = (N + 1) & ~1u;
     vp_assert(vp_be16(raw + 36) == N, "C13: stream-id count field");
     if (N % 2)
+    {
         vp_assert(raw[38 + N] == 0, "C13: the stream-id list is zero-padded to even length");
+        vp_assert(raw[38 + N] == 0, "C12: the reserved pad byte behind an odd stream-id list is zero whatever the object held before");
+    }
     vp_assert(vp_be16(raw + 38 + padded) == V, "C13: vendor data length field follows the padded stream-id list");
     vp_assert(a->getLength() == 38 + padded + 2 + V, "C13: payload ends after the vendor data");
     selfValid(*a, 3, 2);
